@@ -136,6 +136,9 @@ func (d *Decoder) decodeOBUs(pkt *rtp.Packet) ([][]byte, error) {
 		d.resetFragments()
 	} else {
 		d.firstPacketReceived = true
+
+		// discard fragments of a previous OBU that has not been completed
+		d.resetFragments()
 	}
 
 	// last OBU will continue in next packet
